@@ -5,6 +5,7 @@ package hcq
 import (
 	"fmt"
 	"math/big"
+	"strconv"
 	"strings"
 )
 
@@ -38,7 +39,11 @@ func Header(imports string) string {
 
 // Enc writes the flat token stream decoded by Lib/HStr.v (d_N, d_str,
 // d_list, d_option, d_bool): one long `a :: b :: ... :: nil` of numbers.
-type Enc struct{ toks []string }
+type Enc struct {
+	toks  []string
+	table []string
+	index map[string]int
+}
 
 func (e *Enc) tok(s string) { e.toks = append(e.toks, s) }
 
@@ -62,10 +67,36 @@ func (e *Enc) Bool(b bool) {
 	}
 }
 
-// Str writes length and value of a byte string.
+// Str writes a byte string: its length, then one token per byte (Coq's
+// numeral parser is quadratic in the number of digits, so small tokens are
+// by far the fastest encoding).
 func (e *Enc) Str(s string) {
-	e.tok(fmt.Sprint(len(s)))
-	e.tok(new(big.Int).SetBytes([]byte(s)).String())
+	e.tok(strconv.Itoa(len(s)))
+	for i := 0; i < len(s); i++ {
+		e.tok(byteTok[s[i]])
+	}
+}
+
+var byteTok = func() (t [256]string) {
+	for i := range t {
+		t[i] = strconv.Itoa(i)
+	}
+	return
+}()
+
+// Ref writes a byte string as an index into the string table of the stream
+// (decoded by d_ref); equal strings share one table entry.
+func (e *Enc) Ref(s string) {
+	if e.index == nil {
+		e.index = map[string]int{}
+	}
+	i, ok := e.index[s]
+	if !ok {
+		i = len(e.table)
+		e.index[s] = i
+		e.table = append(e.table, s)
+	}
+	e.tok(strconv.Itoa(i))
 }
 
 // Strs writes a list of byte strings.
@@ -107,6 +138,20 @@ func (e *Enc) Defs(name string) string {
 		}
 	}
 	sb.WriteString("Definition " + name + " : list N := " + strings.Join(parts, " ++ ") + ".\n")
+	return sb.String()
+}
+
+// CasesFileT is CasesFile for streams whose strings were written with Ref:
+// the string table comes first; decoder has type list str -> dec case.
+func CasesFileT(imports string, n int, body *Enc, decoder string) string {
+	all := &Enc{}
+	all.Strs(body.table)
+	all.Int(n)
+	all.Raw(body)
+	var sb strings.Builder
+	sb.WriteString(Header(imports))
+	sb.WriteString(all.Defs("data"))
+	sb.WriteString("Definition M := Eval vm_compute in match decode_cases_t " + decoder + " data with Some cs => mismatches cs | None => [4294967295] end.\nPrint M.\n")
 	return sb.String()
 }
 
